@@ -10,12 +10,13 @@ def well_conditioned_cubic(z0, pts):
     return abs(c3) >= 0.05 * max(abs(c2), abs(c1)) and c3 != 0
 
 
-def climb_traj(rng):
-    """starts low, climbs through constant / linear / cubic altitude segments, then wanders"""
+def climb_traj(rng, long=False):
+    """starts low, climbs through constant / linear / cubic altitude segments, then wanders; long: the climb starts
+    beyond byte offset 65536 of the block"""
     scale = rng.choice([1, 1, 2, 10])
     z = rng.randint(0, 200)
     start = [rng.randint(-500, 500), rng.randint(-500, 500), z, 0]
-    segs = []
+    segs = G.long_prefix(rng, start[0], start[1], z, deg=3) if long else []
     for i in range(rng.randint(1, 7)):
         kind = rng.choice(["const", "lin", "lin", "cubic", "cubic"])
         d = rng.choice([500, 1000, 2000, 5000, 20000, rng.randint(100, 60000)])
@@ -43,13 +44,14 @@ def climb_traj(rng):
     return dict(scale=scale, use_yaw=False, start=start, segs=segs), scale
 
 
-def landing_traj(rng):
-    """arbitrary flight followed by 0..4 vertical descending segments with horizontal jitter"""
+def landing_traj(rng, long=False):
+    """arbitrary flight followed by 0..4 vertical descending segments with horizontal jitter; long: the flight is
+    preceded by enough segments to put the final run beyond byte offset 65536 of the block"""
     scale = rng.choice([1, 1, 2, 10])
     z = rng.randint(2000, 9000)
     x, y = rng.randint(-2000, 2000), rng.randint(-2000, 2000)
     start = [x, y, rng.randint(0, 3000), 0]
-    segs = []
+    segs = G.long_prefix(rng, x, y, start[2], deg=3) if long else []
     zz = start[2]
     for i in range(rng.randint(0, 4)):
         nx, ny = x + rng.randint(-2000, 2000), y + rng.randint(-2000, 2000)
@@ -62,7 +64,7 @@ def landing_traj(rng):
             segs.append(dict(dur=d, x=[x + 10, nx - 10, nx], y=[ny], z=[zz + 50, nz + 50, nz], yaw=[]))
         x, y, zz = nx, ny, nz
     jit = rng.choice([0, 0, 0, 1, 2, 5, 50])
-    nvert = rng.choice([0, 1, 1, 2, 3, 4])
+    nvert = rng.choice([1, 2, 3]) if long else rng.choice([0, 1, 1, 2, 3, 4])
     for i in range(nvert):
         drop = rng.choice([0, rng.randint(1, 3000), rng.randint(1, 200)])
         nz = zz - drop
